@@ -144,7 +144,7 @@ def ores(ob):
         return "ODec %s" % ("None" if n < 0 else "(Some %d%%nat)" % n)
     if r == "err":
         return "OErr"
-    if r == "panic":
+    if r in ("panic", "stuck", "skipped"):   # stuck: the operation never returned; skipped: the operations after it were not run
         return "OPanic"
     raise ValueError(r)
 
